@@ -445,6 +445,10 @@ func init() {
 				// every judged call after every context block (jailed / unstaking / tombstoned / raised minimum ...)
 				{Name: "after-context", Cfg: c11cfg(), Alphabet: append(append([]Choice{}, ctx...), judged...), K: 2, D: 2, Tail: 1},
 			}
+			// a genesis without DAO tokens (module accounts that a refused transaction would be the first to touch)
+			noDAO := c11cfg()
+			noDAO.DAOTokens = 0
+			scs = append(scs, Scenario{Name: "positions-genesis-without-dao-tokens", Cfg: noDAO, Alphabet: sand, K: 1, D: 1, Tail: 1})
 			hostile := c11hostile()
 			if tier != "thorough" {
 				// quick: every 3rd mutation (the thorough tier runs all of them)
